@@ -53,6 +53,23 @@ def src(node):
         return '<%s>' % type(node).__name__
 
 
+def src_ref(node):
+    """like src(), with module-level private functions that were renamed since the reference tree spelt by their
+    reference name (so that a rule written against `_helper(x)` still recognises `_renamed_helper(x)`)"""
+    root = node
+    while getattr(root, '_parent', None) is not None:
+        root = root._parent
+    al = getattr(root, '_aliases', None)
+    if not al:
+        return src(node)
+    import copy
+    clone = copy.deepcopy(node)
+    for n in ast.walk(clone):
+        if isinstance(n, ast.Name) and n.id in al:
+            n.id = al[n.id]
+    return src(clone)
+
+
 def const_str(node):
     if isinstance(node, ast.Constant) and isinstance(node.value, str):
         return node.value
@@ -94,6 +111,62 @@ def closure_walk(fn):
             yield n
 
 
+def private_function_table(tree):
+    """{name: {'params': n, 'callers': [top-level functions / classes of the module whose body calls it by name]}} for the
+    module-level functions whose name starts with one underscore"""
+    out = {}
+    tops = [n for n in tree.body if isinstance(n, (ast.FunctionDef, ast.ClassDef))]
+    for fn in tops:
+        if isinstance(fn, ast.FunctionDef) and fn.name.startswith('_') and not fn.name.startswith('__'):
+            callers = sorted({t.name for t in tops if t is not fn and any(
+                isinstance(c, ast.Call) and isinstance(c.func, ast.Name) and c.func.id == fn.name for c in ast.walk(t))})
+            out[fn.name] = {'params': len(fn.args.posonlyargs) + len(fn.args.args), 'callers': callers}
+    return out
+
+
+_REFERENCE_NAMES = None
+
+
+def reference_names():
+    global _REFERENCE_NAMES
+    if _REFERENCE_NAMES is None:
+        p = os.path.join(os.path.dirname(os.path.abspath(__file__)), 'reference_names.json')
+        try:
+            with open(p) as f:
+                _REFERENCE_NAMES = json.load(f)
+        except (OSError, ValueError):
+            _REFERENCE_NAMES = {}
+    return _REFERENCE_NAMES
+
+
+def renamed_privates(rel, tree):
+    """{current name: reference name} for module-level private functions of the reference tree that are gone under their
+    name but have exactly one successor: a private function unknown to the reference tree with the same arity that is
+    called from the same functions (callers compared after applying the renames already found)"""
+    ref = reference_names().get(rel, {})
+    if not ref:
+        return {}
+    cur = private_function_table(tree)
+    missing = [n for n in ref if n not in cur]
+    fresh = [n for n in cur if n not in ref]
+    alias = {}
+    for _ in range(3):
+        for old in missing:
+            if old in alias.values():
+                continue
+            want = ref[old]
+            cands = []
+            for new in fresh:
+                if new in alias:
+                    continue
+                callers = sorted({alias.get(c, c) for c in cur[new]['callers']})
+                if cur[new]['params'] == want['params'] and callers == sorted(want['callers']) and callers:
+                    cands.append(new)
+            if len(cands) == 1:
+                alias[cands[0]] = old
+    return alias
+
+
 def dotted(node):
     """'a.b.c' for Name/Attribute chains, else None."""
     parts = []
@@ -111,6 +184,9 @@ class PyModule(object):
         self.rel = rel
         self.text = text
         self.tree = attach_parents(tree)
+        # private module-level functions that were renamed since the reference tree: {current name: reference name}
+        self.aliases = renamed_privates(rel, self.tree)
+        self.tree._aliases = self.aliases
 
     # -- lookup ------------------------------------------------------------
     def _find(self, body, name, kinds):
@@ -119,12 +195,20 @@ class PyModule(object):
                 return node
         return None
 
+    def current_name(self, ref_name):
+        for new, old in self.aliases.items():
+            if old == ref_name:
+                return new
+        return ref_name
+
     def get(self, qualname, required=True):
         """Function / class by dotted path: 'f', 'Class.method', 'outer.inner'.
         Nested lookups search the whole body of the enclosing def (any depth
         of if/try/with), not only its top level."""
         node = self.tree
-        for part in qualname.split('.'):
+        for i_part, part in enumerate(qualname.split('.')):
+            if i_part == 0:
+                part = self.current_name(part)
             found = None
             todo = list(getattr(node, 'body', []))
             while todo:
